@@ -29,6 +29,7 @@ func init() {
 			ruleIndexLoopDeletion(r, []string{metricPkg, enginePkg})
 			ruleBinOpPairsMatched(r)
 			ruleKeySiblings(r)
+			rulePerStepGroupTables(r, []string{"binOpIterator"})
 		},
 	})
 }
